@@ -72,3 +72,22 @@
 (assert (forall ((b Bytes)) (! (and (>= (blen b) 0) (= (= (blen b) 0) (= b bempty))) :pattern ((blen b)))))
 (declare-fun hreseed (Bytes) Bytes)
 (declare-fun habsorb (Bytes Bytes) Bytes)
+; ---- ring signatures (sign/anon/sig.go) ----
+; h1(pre, PG, PH): the challenge hash over the position-invariant prefix state and the two commitment points
+(declare-fun h1 (Bytes G G) S)
+; hashes to a group element
+(declare-fun pickG (Bytes) G)
+; ringFold(c0, ...)(n): the challenge after closing n links of the ring, starting from c0
+;   PG_i = s_i*B + c_i*L_i,  PH_i = s_i*base + c_i*tag (gzero placeholder when unlinkable),  c_{i+1} = h1(pre, PG_i, PH_i)
+(declare-fun ringFold (S (Array Int S) (Array Int G) (Array Int Int) Int (Array Int Int) Int Bytes Bool G G Int) S)
+(assert (forall ((c0 S) (sv (Array Int S)) (pv (Array Int G)) (se (Array Int Int)) (so Int) (le (Array Int Int)) (lo Int) (pre Bytes) (lk Bool) (hb G) (tg G) (n Int))
+  (! (=> (<= n 0) (= (ringFold c0 sv pv se so le lo pre lk hb tg n) c0)) :pattern ((ringFold c0 sv pv se so le lo pre lk hb tg n)))))
+(assert (forall ((c0 S) (sv (Array Int S)) (pv (Array Int G)) (se (Array Int Int)) (so Int) (le (Array Int Int)) (lo Int) (pre Bytes) (lk Bool) (hb G) (tg G) (n Int))
+  (! (=> (> n 0) (= (ringFold c0 sv pv se so le lo pre lk hb tg n)
+        (h1 pre
+            (gadd (gmul (select sv (select se (+ so (- n 1)))) (gbase 0))
+                  (gmul (ringFold c0 sv pv se so le lo pre lk hb tg (- n 1)) (basept pv (select le (+ lo (- n 1))))))
+            (ite lk (gadd (gmul (select sv (select se (+ so (- n 1)))) hb)
+                          (gmul (ringFold c0 sv pv se so le lo pre lk hb tg (- n 1)) tg))
+                    gzero))))
+     :pattern ((ringFold c0 sv pv se so le lo pre lk hb tg n)))))
